@@ -719,6 +719,12 @@ func (env *Env) evalCall(e *ast.CallExpr) Val {
 				return x
 			}
 			return fc.makeIface(env.st, x, x.Typ, it)
+		case "entry":
+			// entry value of a parameter (ignoring loop variables of the same name)
+			sub := *env
+			sub.loopVars = nil
+			sub.st = env.old
+			return sub.eval(e.Args[0])
 		case "disjoint":
 			a, b := env.eval(e.Args[0]), env.eval(e.Args[1])
 			return boolVal(Or(Not(Eq(App("sarr", a.T), App("sarr", b.T))), Eq(a.T, "nilS"), Eq(b.T, "nilS")))
